@@ -347,6 +347,11 @@ pub fn run_task(
     )
 }
 
+/// `terminal::get_cols` (what the fancy console asks before every frame).
+pub fn terminal_get_cols() -> Option<usize> {
+    crate::terminal::get_cols()
+}
+
 fn os_errno(e: &anyhow::Error) -> i32 {
     e.downcast_ref::<std::io::Error>()
         .and_then(|e| e.raw_os_error())
